@@ -93,10 +93,12 @@ CHECKS = {
         "other than SerDesError / ValueError is a violation; returned objects are re-serialised and re-read. Recorded bit reader / "
         "writer steps (fast and slow path, clipped reads, sub-readers) of the harness's calls and of the repository's own serdes "
         "tests are validated by TLC (TraceWire.tla).",
-   note="Bit strings <= 8 bits for two-level types (quick) / <= 16 bits (thorough) on the specification; on the code: all "
+   note="Bit strings <= 8 bits for two-level types on the specification; on the code: all "
         "strings <= 1 byte, 600+ two-byte strings, every prefix and single-bit corruption of four valid representations, "
         "junk / zero suffixes, random strings <= 16 bytes, for up to 500 types (quick, sampled) / all types (thorough). "
-        "Results containing NaN are skipped (payload does not survive a Python float).",
+        "Results containing NaN are skipped (payload does not survive a Python float). The byte string is handed over as bytes / "
+        "bytearray / memoryview (also a slice of a larger buffer) in turn. Thorough: 8 bits at two nesting steps and 16 bits at one on the "
+        "specification, 2 500 types on the code.",
    technique="TLA+ total decoder checked by TLC; recorded deserialize() calls validated against the spec by TLC",
    design="4 C07"),
  "C14": dict(
@@ -115,8 +117,11 @@ CHECKS = {
         "self / cyclic / case-variant / ambiguous references never succeed, and the closure invariants, for every "
         "configuration of the universe. Every configuration is materialised in three directories and read; the file "
         "identity of every nested type reachable through any referrer, or the error class / path / line, is compared, and the "
-        "recorded reader steps (begin / resolve / end) must equal the specification's step log.",
-   note="Configurations: <= 2 definitions with every reference kind and pairs of spellings (full), 3 definitions with "
+        "recorded reader steps (begin / resolve / end) must equal the specification's step log. Sessions.tla: every history of "
+        "two (three, sampled) calls over variants of one namespace that keep type names and versions but change content is run in a "
+        "process of its own; every call must observe what the same call observes alone.",
+   note="A second file of one name + version inside one directory (legacy suffix) is part of the configurations. "
+        "Configurations: <= 2 definitions with every reference kind and pairs of spellings (full), 3 definitions with "
         "absolute references (graph shapes; sampled 1/8 in quick). Directories: target root a, lookup b, second lookup a'. "
         "Versions use major 0 so the minor-version rules (C11) do not interfere.",
    technique="TLA+ reader/resolver spec checked by TLC; every configuration materialised and read, links and errors compared",
@@ -128,7 +133,9 @@ CHECKS = {
         "subset. Every state is materialised and read; read_files is also compared with read_namespace's types; the same "
         "namespace is re-read under several hash seeds and with reordered / duplicated / relative / symlinked arguments.",
    note="Trees of <= 3 (quick) / 4 (thorough) files, depth 0-2, .dsdl/.uavcan; 7 resolved directories x 3 spellings, <= 2 "
-        "lookups. File-system enumeration order is explored on the specification only; hash seeds are forced (5 / 24).",
+        "lookups. File-system enumeration order is explored on the specification only; hash seeds are forced (5 / 24). The lookup "
+        "directory of the tree cases is alternately a namespace of the root's own name; read_files is also called with relative spellings "
+        "from each scratch tree's root, case after case in one process.",
    technique="TLA+ pipeline and directory rule checked by TLC; every state materialised; hash-seed subprocess comparison",
    design="4 C10"),
  "C19": dict(
@@ -223,7 +230,8 @@ CHECKS = {
         "fixed part) is read and queried for capacity exponents 1..63; every recorded solver event is validated by TLC against "
         "the design (TraceSolver.tla), and the instruction count inside the bit length set package must not grow from 2**16 "
         "elements upward and stay below a fixed budget.",
-   note="Wall time and memory are not decided (reported only); the decided statement is its operation-count form. The budget "
+   note="Known finding F15: a definition that READS `_offset_` behind a huge array is expanded numerically (the intrinsic is a set value). "
+        "Wall time and memory are not decided (reported only); the decided statement is its operation-count form. The budget "
         "(4*10^7 instructions, ~7x the unchanged tree) and a 180 s terminator for work stuck in C-level iteration are the only "
         "thresholds.",
    technique="TLA+ cost lemmas checked by TLC; recorded solver events validated by TLC; deterministic instruction counts compared",
